@@ -19,6 +19,9 @@ of its clauses have parts that are closed-form code and table agreement; only th
                solver's mole-balance sums and the species list used for summing and printing from the same formula of each
                species: both blocks test `<species>.<vector>.size() == 0` and otherwise add THAT SAME vector (the alternate
                -mole_balance formula), so the reported totals book a species where the solver balances it
+  C01.recycle  "the K(T) the database text prescribes": a species or phase that is defined again under an existing name is recycled
+               by its store function; the recycled record is re-initialised (<x>_free followed by <x>_init) so that nothing of
+               the earlier definition - log K, delta_h, analytical terms, critical constants - leaks into the new one
   C01.kcall    unit discipline at every call of k_calc: the temperature argument is a Kelvin quantity (an expression that
                mentions a Celsius quantity - tc, tc_x, Get_tc() - must be that quantity + 273.15) and the pressure argument is
                an atmosphere quantity times 101325 (or the reference 101325 itself)
@@ -137,6 +140,7 @@ def run(P, R, tier):
     addlogk_rule(P, R)
     select_rule(P, R)
     mbformula_rule(P, R)
+    recycle_rule(P, R)
     kcall_rule(P, R)
     slots_rule(P, R)
     si_rule(P, R)
@@ -348,6 +352,31 @@ def mbformula_rule(P, R):
                         "balances them under" % (tested.split("::")[-1], added.split("::")[-1]), line=call[1], **where)
         else:
             R.violation("C01.mbform", inst, "the blocks of build_model use different formula vectors %s" % sorted(v.split("::")[-1] for v in vecs), line=call[1], **where)
+
+
+def recycle_rule(P, R):
+    R.rule("C01.recycle", "store functions that recycle an existing species / phase record re-initialise it (<x>_free then <x>_init)", minimum=2)
+    n = 0
+    for q in ("Phreeqc::s_store", "Phreeqc::phase_store"):
+        f = P.one(q)
+        stem = q.split("::")[-1].replace("_store", "")
+        for blk in T.walk(f["body"]):
+            if blk[0] != "Compound":
+                continue
+            stm = [s_ for s_ in blk[2] if T.is_node(s_)]
+            for i, st in enumerate(stm):
+                if st[0] == "Call" and T.callee_name(st) == stem + "_free" and st[4]:
+                    n += 1
+                    arg = T.text(st[4][0])
+                    inst = "%s:%s_free@%d" % (q.split("::")[-1], stem, st[1])
+                    if any(t_[0] == "Call" and T.callee_name(t_) == stem + "_init" and t_[4] and T.text(t_[4][0]) == arg for t_ in stm[i + 1:]):
+                        R.ok("C01.recycle", inst, "%s_init(%s) follows" % (stem, arg))
+                    else:
+                        R.violation("C01.recycle", inst, "%s recycles an existing record with %s_free(%s) but does not re-initialise it: log K data of the earlier definition that the new "
+                                    "definition does not mention (analytical expression, delta_h, critical constants) stay in force" % (q.split("::")[-1], stem, arg),
+                                    file=f["file"], line=st[1], function=f["q"])
+    if n < 2:
+        R.anchor_missing("C01.recycle", "recycling branches of s_store / phase_store not found (%d)" % n)
 
 
 CELSIUS = ("tc_x", "tc", "Get_tc", "tc1", "tc2")
